@@ -64,7 +64,20 @@ func link(path string, visited []string, cache map[string]*parser.Frugal, verr m
 		}
 		f.ParsedIncludes[filepath.Base(include[:len(include)-7])] = pi
 	}
-	verr[f] = parser.VerifValidate(f)
+	// validation follows typedefs into the includes (isException): as parseFrugal does, never
+	// validate a file one of whose includes failed validation (an include with circular
+	// typedefs would overflow the stack)
+	incOK := true
+	for _, pi := range f.ParsedIncludes {
+		if verr[pi] != nil {
+			incOK = false
+		}
+	}
+	if incOK {
+		verr[f] = parser.VerifValidate(f)
+	} else {
+		verr[f] = fmt.Errorf("not validated: an include failed validation")
+	}
 	parser.VerifFinish(f)
 	cache[path] = f
 	return f, nil
